@@ -585,7 +585,136 @@ func c30RTPChild(in c30RTPIn) (V, Verdict) {
 	return obs, Pass(fmt.Sprintf("rtp:%s/parsed:%v", in.Origin, okU), okU)
 }
 
+// ---------- suite rtx: the repair-stream rewrite, compared with the model ----------
+
+const c30RTXMTU = 100
+
+type c30RTXIn struct {
+	Fill   string `json:"fill"` // hex, exactly c30RTXMTU bytes: what the reader leaves in the pool buffer
+	N      int    `json:"n"`    // bytes the reader reports, 1..c30RTXMTU
+	PT     uint8  `json:"pt"`
+	SSRC   uint32 `json:"ssrc"`
+	Expect string `json:"expect,omitempty"` // hex of the original packet when Fill is an unmutated RTX packet
+}
+
+func c30RTXChild(in c30RTXIn) (V, Verdict) {
+	fill, _ := hex.DecodeString(in.Fill)
+	pc, err := c30API(true, true, false, c30RTXMTU).NewPeerConnection(webrtc.Configuration{})
+	if err != nil {
+		panic(err)
+	}
+	defer func() { _ = pc.Close() }()
+	res, err := pc.VerifC30RTXUnwrap([][]byte{fill}, []int{in.N}, in.PT, in.SSRC)
+	if err != nil {
+		return c30Err("setup"), Fail("rtx-setup", err.Error())
+	}
+	if len(res) == 0 {
+		return c30Ok(VL{}), Pass("dropped", false)
+	}
+	r := res[0]
+	obs := c30Ok(VL{VL{VHex(r.Packet), VZ(int64(r.RTXPT)), VZ(int64(r.RTXSeq)), VZ(int64(r.RTXSSRC))}})
+	// direct oracle (RFC 4588): an unmutated RTX packet comes out as the
+	// original packet; anything delivered is two bytes shorter than what was read
+	if len(r.Packet) != in.N-2 {
+		return obs, Fail("rtx-length", fmt.Sprintf("read %d bytes, delivered %d", in.N, len(r.Packet)))
+	}
+	if in.Expect != "" && hex.EncodeToString(r.Packet) != in.Expect {
+		return obs, Fail("rtx-unwrap-differs-from-original", hex.EncodeToString(r.Packet)+" want "+in.Expect)
+	}
+	class := "delivered-mutated"
+	if in.Expect != "" {
+		class = "delivered-valid"
+	}
+	return obs, Pass(class, true)
+}
+
+func c30GenRTX(r *Rand, i int) c30RTXIn {
+	in := c30RTXIn{PT: Pick(r, []uint8{96, 102, 0, 127}), SSRC: uint32(r.U64())}
+	h := rtp.Header{Version: 2, PayloadType: 97, SequenceNumber: uint16(r.U64()), Timestamp: uint32(r.U64()), SSRC: 77, Marker: r.Bool()}
+	for k, n := 0, r.Intn(3); k < n; k++ {
+		h.CSRC = append(h.CSRC, uint32(r.U64()))
+	}
+	if r.Bool() {
+		h.Extension, h.ExtensionProfile = true, 0xBEDE
+		_ = h.SetExtension(1, []byte("0"))
+		if r.Bool() {
+			_ = h.SetExtension(3, []byte("hi"))
+		}
+	}
+	osn := uint16(r.U64())
+	body := r.Bytes(r.Intn(20))
+	p := rtp.Packet{Header: h, Payload: append([]byte{byte(osn >> 8), byte(osn)}, body...)}
+	if r.Chance(1, 4) {
+		p.Header.Padding, p.PaddingSize = true, uint8(r.Range(1, 8))
+	}
+	raw, err := p.Marshal()
+	if err != nil || len(raw) > c30RTXMTU {
+		raw = []byte{0x80, 97, 0, 1, 0, 0, 0, 2, 0, 0, 0, 77, 0x12, 0x34, 1, 2, 3}
+		p = rtp.Packet{}
+		_ = p.Unmarshal(raw)
+		osn, body = 0x1234, []byte{1, 2, 3}
+	}
+	fill := append(append([]byte{}, raw...), r.Bytes(c30RTXMTU-len(raw))...) // stale bytes behind the packet
+	in.N = len(raw)
+	if i%3 != 0 {
+		// the original packet the sender retransmitted
+		o := p
+		o.Header.PayloadType, o.Header.SSRC, o.Header.SequenceNumber = in.PT, in.SSRC, osn
+		o.Payload = body
+		if exp, e := o.Marshal(); e == nil && !p.Header.Padding {
+			in.Expect = hex.EncodeToString(exp)
+		}
+	} else {
+		for k, n := 0, r.Range(1, 4); k < n; k++ {
+			switch r.Intn(5) {
+			case 0:
+				in.N = r.Range(1, c30RTXMTU)
+			case 1:
+				fill[r.Intn(len(raw))] = byte(r.U64())
+			case 2:
+				fill[0] = byte(r.U64()) // version, padding, extension, CSRC count
+			case 3: // hostile extension length (uint16 wrap) where the header says the extension starts
+				off := 12 + 4*int(fill[0]&15)
+				fill[0] |= 0x10
+				v := Pick(r, []uint16{0xffff, 0x3ffc, 0x3ffd, 0x3ffb, 0x4000, 0x7fff, 0x8000, 1, 0, 20})
+				fill[off+2], fill[off+3] = byte(v>>8), byte(v)
+			default:
+				fill[0] |= 0x20 // padding bit, count taken from the last byte read
+				fill[in.N-1] = byte(r.U64())
+			}
+		}
+	}
+	in.Fill = hex.EncodeToString(fill)
+	return in
+}
+
+// ---------- suite guard: peeked-packet guard, compared with the model ----------
+
+type c30GuardIn struct {
+	Pkt string `json:"pkt"`
+	MTU int    `json:"mtu"`
+}
+
+func c30GuardRun(in c30GuardIn) (V, Verdict) {
+	pkt, _ := hex.DecodeString(in.Pkt)
+	pc, err := c30API(true, true, false, uint(in.MTU)).NewPeerConnection(webrtc.Configuration{})
+	if err != nil {
+		panic(err)
+	}
+	defer func() { _ = pc.Close() }()
+	var pt uint8
+	var gerr error
+	if p, site, msg := c30Catch(func() { pt, gerr = pc.VerifC30IncomingGuard(pkt) }); p {
+		return c30PanicV(), Fail("panic-incoming-guard-at-"+site, msg)
+	}
+	if gerr != nil {
+		return c30Err(webrtc.VerifC30ErrClass(gerr)), Pass("too-short", false)
+	}
+	return c30Ok(VZ(int64(pt))), Pass("payload-type", true)
+}
+
 var c30ChildRun = map[string]func(raw json.RawMessage) (V, Verdict){
+	"rtx":  c30ChildHandler(c30RTXChild),
 	"sdp":  c30ChildHandler(c30SDPChild),
 	"cand": c30ChildHandler(c30CandChild),
 	"rtp":  c30ChildHandler(c30RTPChild),
@@ -664,6 +793,44 @@ func init() {
 			return out
 		},
 		Run: func(in c30CandIn) (V, Verdict) { return c30Exec("cand", in) },
+	})
+
+	Register(Spec[c30RTXIn]{
+		ID: "C30", Suite: "rtx", CoqImports: []string{"Check.C30"},
+		CoqType: "string * Z * Z * Z", CoqRun: "Check.C30.run_rtx",
+		Quick: 300, Thorough: 12000, Parallel: 8,
+		Corpus: func() []c30RTXIn {
+			pad := func(h string) string { return h + strings.Repeat("00", c30RTXMTU-len(h)/2) }
+			return []c30RTXIn{
+				{Fill: pad("80e10007000000640000004d1234aabb"), N: 16, PT: 96, SSRC: 0x01020304, Expect: "80e012340000006401020304aabb"},
+				{Fill: pad("80e10007000000640000004d12"), N: 13, PT: 96, SSRC: 1},       // probe: dropped
+				{Fill: pad("90e10007000000640000004dbede3ffc"), N: 16, PT: 96, SSRC: 1}, // header length wraps to 0
+				{Fill: pad("90e10007000000640000004dbedeffff"), N: 100, PT: 96, SSRC: 1},
+				{Fill: pad("bfe10007000000640000004d"), N: 100, PT: 96, SSRC: 1}, // 15 CSRCs, padding, extension
+				{Fill: pad("a0e10007000000640000004d1234aabbccdd03"), N: 19, PT: 96, SSRC: 1},
+			}
+		},
+		Gen: c30GenRTX,
+		Run: func(in c30RTXIn) (V, Verdict) { return c30Exec("rtx", in) },
+		Coq: func(in c30RTXIn) string {
+			return fmt.Sprintf("(%s, %d, %d, %d)", CoqString(in.Fill), in.N, in.PT, in.SSRC)
+		},
+	})
+
+	Register(Spec[c30GuardIn]{
+		ID: "C30", Suite: "guard", CoqImports: []string{"Check.C30"},
+		CoqType: "string * Z", CoqRun: "Check.C30.run_guard",
+		Exhaustive: func() []c30GuardIn {
+			var out []c30GuardIn
+			for _, mtu := range []int{4, 8, 1460} {
+				for n := 0; n <= 10; n++ {
+					out = append(out, c30GuardIn{Pkt: strings.Repeat("e1", n), MTU: mtu})
+				}
+			}
+			return out
+		},
+		Run: c30GuardRun,
+		Coq: func(in c30GuardIn) string { return fmt.Sprintf("(%s, %d)", CoqString(in.Pkt), in.MTU) },
 	})
 
 	Register(Spec[c30RTPIn]{
